@@ -342,7 +342,35 @@ func c14MassConcurrent(c *core.Ctx, r *gen.Rand) {
 	c.Distinct(r.U64())
 }
 
+// c14Dropped: agents with transactions in flight become unreachable without Close. Nothing calls them any more, so
+// their handlers see no event - events come from calls, not from the garbage collector.
+func c14Dropped(c *core.Ctx) {
+	var events int32
+	handler := func(stun.Event) { atomic.AddInt32(&events, 1) }
+	for k := 0; k < 16; k++ {
+		a := stun.NewAgent(handler)
+		_ = a.Start(amTID(int8(k%amIDs)), amTime(1))
+		if k%2 == 0 {
+			_ = a.Start(amTID(int8((k+1)%amIDs)), amTime(3))
+		}
+	}
+	for round := 0; round < 4; round++ {
+		runtime.GC()
+		time.Sleep(5 * time.Millisecond) // finalizers, if any, run on their own goroutine
+	}
+	c.Eval(1)
+	c.Count("agents_dropped_without_close", 16)
+	if n := atomic.LoadInt32(&events); n != 0 {
+		c.Violate("event-without-call", "event-without-call:dropped-agent", map[string]interface{}{
+			"problem": "handlers of agents that were dropped (never closed, no call in progress) received events after garbage collection", "events": n})
+	}
+}
+
 func c14(c *core.Ctx) {
+	c.SectionSerial("dropped-agents", 2, func(i int64, _ *gen.Rand) {
+		c14Dropped(c)
+		c.Distinct(uint64(i) | 4<<50)
+	})
 	c.Section("call-during-mass-collect", c.N(200, 20000), func(_ int64, r *gen.Rand) {
 		c14MassConcurrent(c, r)
 	})
